@@ -35,6 +35,11 @@ theorem bulk_sites_reviewed :
       ∃ r ∈ bulkReviewed, r.1 = site.2.1 ∧ (site.2.2.1 ≠ Flag.no → r.2.1 = true) ∧ (site.2.2.2 ≠ Flag.no → r.2.2 = true) := by
   decide +kernel
 
+/-- the regenerated classification of how `MoleculeContainer.copy` and `ReactionContainer.copy` give the new object its
+metadata: `None` for `None`, a new dict otherwise (anything else is a translator error), and reactions copy their molecules -/
+theorem copies_own_metadata :
+    copyMetaCopied = true ∧ reactionCopyMetaCopied = true ∧ reactionCopyMoleculesCopied = true := by decide
+
 /-! ## histories -/
 
 /-- run a history (operation, observed `__dict__` keys after it) -/
